@@ -9,6 +9,11 @@ tech={
  'C04':'exactly-one path counting by CFG reachability (at-most-once / must-pass-through) along the request path, no-retry loop check, use-after-release typestate',
  'C05':'queue-discipline lint over go/ssa: constant worker counts, guard dominance of inline vs queued dispatch, same-critical-section of read and dispatch',
  'C06':'failure-edge must-pass-through, error-text origin slice, buffer-alias taint, guard dominance of reply decoding',
+ 'C07':'writer/reader/specification table extraction from SSA constants (tags, shifts, masks, field order, thresholds), size-bound sums, capacity-guard dominance of reslices, go/types interface checks',
+ 'C08':'recover-barrier dominance + trace-partitioned abstract interpretation (nil-ness / zero-Value) of the server request path over all 32 upgrade-flag bytes + teardown CFG ordering; thorough: compiler bounds-check-elimination facts',
+ 'C09':'CFG ordering (ack before handler start), self-disabling-branch check in the response reader, value-origin slices for stream routing, queue/lock discipline lint, alias taint',
+ 'C10':'typestate/lockset checks of the stream stop protocol, must-pass-through on reader exit, sibling effect-set comparison of the two server teardown sequences',
+ 'C11':'field-based buffer-alias taint with guard-dominated exemptions + use-after-release / ownership-transfer typestate over go/ssa',
 }
 built=sorted(tech)
 checks=[]
